@@ -39,6 +39,9 @@ def Num.wf : Num → Prop
   | .fix v => inFix v = true
   | .big _ => True
 
+instance : DecidablePred Num.wf := fun n => by
+  cases n <;> simp only [Num.wf] <;> infer_instance
+
 /-- `Number::arena_from(i64)` / `fixnum!`: `Fixnum::build_with_checked`, else bignum. -/
 def ofI64 (v : Int) : Num := if inFix v then .fix v else .big v
 /-- `Number::arena_from(Integer)`: no renormalisation. -/
